@@ -1207,12 +1207,19 @@ func loopGen(r *rng, maxops int, w *bufio.Writer) {
 				if !strings.HasPrefix(a, "sched") || !strings.Contains(a, " rep ") {
 					fmt.Fprintf(w, "! prog %s %s\n", opid, strings.Join(body, " ; "))
 				} else {
-					// a repeating timer runs its program at every firing: only actions without fixed ids
+					// a repeating timer runs its program at every firing: operation ids are assigned at run time (op=+)
 					var safe []string
 					for _, b := range body {
-						if !strings.Contains(b, "op=") {
-							safe = append(safe, b)
+						if strings.Contains(b, "chain=") {
+							continue
 						}
+						if i := strings.Index(b, "op="); i >= 0 {
+							b = strings.TrimSpace(b[:i]) + " op=+"
+						}
+						safe = append(safe, b)
+					}
+					if r.intn(3) == 0 {
+						safe = append(safe, "sleep 2", "poll")
 					}
 					if len(safe) > 0 {
 						fmt.Fprintf(w, "! prog %s %s\n", opid, strings.Join(safe, " ; "))
@@ -1370,6 +1377,17 @@ func loopEnum(args []string, w *bufio.Writer) {
 				"poll", "pending", "poll", "pending")
 		}
 		emit("obj 1 tcp", "prog 11 "+act+" 1", "prog 12 "+act+" 1", "writeall 1 70000 op=12", "read 1 4 op=11", "peer 1 write 4", "peer 1 drain", "poll", "pending", "poll", "pending")
+	}
+	// 6. what the callback of a repeating schedule does to its own timer (the schedule continues unless the callback
+	// cancelled / closed the timer or left another schedule armed), including a nested poll in which the new schedule fires
+	for _, body := range []string{
+		"tcancel 1", "close 1", "sched 1 once 0 op=+", "sched 1 once 1 op=+", "sched 1 once 3 op=+", "sched 1 rep 2 op=+",
+		"tcancel 1 ; sched 1 once 0 op=+", "tcancel 1 ; sched 1 once 1 op=+", "tcancel 1 ; sched 1 rep 2 op=+",
+		"sched 1 once 1 op=+ ; sleep 3 ; poll", "tcancel 1 ; sched 1 once 1 op=+ ; sleep 3 ; poll", "sched 1 once 1 op=+ ; tcancel 1",
+		"sched 1 once 1 op=+ ; sleep 3 ; poll ; tcancel 1", "scheduled 1 ; sched 1 once 2 op=+ ; scheduled 1", "post op=+ ; poll",
+	} {
+		emit("obj 1 timer", "prog 11 "+body, "sched 1 rep 1 op=11", "sleep 2", "poll", "pending", "scheduled 1", "sleep 3", "poll", "pending",
+			"sleep 3", "poll", "pending", "scheduled 1", "tcancel 1", "pending")
 	}
 	emit("obj 1 listener", "obj 2 tcp", "prog 12 close 1", "prog 11 close 2", "accept 1 op=11", "read 2 4 op=12", "peer 1 connect", "peer 2 write 4", "poll", "pending", "poll", "pending")
 	emit("obj 1 packet", "obj 2 tcp", "prog 12 close 1", "prog 11 close 2", "recvfrom 1 16 op=11", "read 2 4 op=12", "peer 1 send 8", "peer 2 write 4", "poll", "pending", "poll", "pending")
